@@ -18,7 +18,8 @@ static std::vector<int> A(const char*s){ std::vector<int> v; for(;*s;++s) v.push
 
 // ---- systematic IPv6 / IPv4 literals (valid and near-valid)
 static void ip_family(Rng&R,std::vector<Text>&out,bool thorough){
-  static const char* oct[]={"0","9","10","99","100","199","200","249","250","255","256","260","299","300","01","1111",""};
+  static const char* oct[]={"0","9","10","99","100","199","200","249","250","255","256","260","299","300","01","1111","",
+    "19","20","25","26","29","50","59","60"};   // (two-digit octets on every branch of the decimal-octet rules: 1x, 2[0-4], 25, 2[6-9], 5x, [6-9]x)
   std::vector<Text> hosts;
   int rounds=thorough?6:2;
   for(int r=0;r<rounds;++r)
@@ -150,7 +151,7 @@ VH_DRIVER(parse_log){
         else { if(fits_char(whole)) g.event(parse_event<ApiA>(S.mid,whole,ep,"mid",a,k)); g.event(parse_event<ApiW>(S.mid,whole,ep,"mid",a,k)); }
         g.count(jtext(whole)+"|"+std::to_string(k),true); } }
     // uriParseIpFourAddress: every combination of boundary octets in each position, wrong part counts, leading zeros, stray characters
-    { std::vector<std::string> oc={"0","9","10","99","100","199","200","249","250","255","256","260","299","300","999","00","01","1a","","25","2"}; std::vector<Text> fam;
+    { std::vector<std::string> oc={"0","9","10","99","100","199","200","249","250","255","256","260","299","300","999","00","01","1a","","25","2","19","20","26","29","50","59","60"}; std::vector<Text> fam;
       for(auto&a:oc) for(auto&b:oc){ fam.push_back(T((a+"."+b+".3.4").c_str())); fam.push_back(T(("1.2."+a+"."+b).c_str())); fam.push_back(T((a+".2.3."+b).c_str())); }
       for(const char*s:{"1.2.3","1.2.3.4.5","1.2.3.4.","1.2.3.",".1.2.3","1..2.3","1.2.3.4 ","1.2.3.4/","255.255.255.255","0.0.0.0","1.2.3.25","1.2.3.2","1,2,3,4","1.2.3.-4","1.2.3.+4","1.2.3.4\x00"}) fam.push_back(T(s));
       for(int c=1;c<256;c+=1){ Text t=T("1.2.3."); t.push_back(c); fam.push_back(t); }
